@@ -214,7 +214,7 @@ def run_worker(widx, mos, jobs, perturb, results, errors):
             for fn, text in job.get("files", {}).items():
                 open(os.path.join(ws, fn), "w").write(text)
             try:
-                s = D.ScriptSession(port, ws, src, lines_default=job.get("linesDefault", False))
+                s = D.ScriptSession(port, ws, src, lines_default=job.get("linesDefault", False), bp_column=job.get("bpColumn"))
             except ConnectionError as e:
                 errors.append("worker %d: %s after %d sessions; stderr: %s; threads: %s" % (widx, e, n, " | ".join(l for l in m.stderr_text().splitlines() if "listening on port" not in l)[-900:], [(t["comm"], t["state"], t["wchan"]) for t in m.threads()]))
                 return
@@ -324,7 +324,7 @@ def main(tier):
     def add(i, case, pg, kind, slow, late=False):
         bps0, steps = instantiate(case, pg, rnd, slow, late)
         jobs.append({"id": i, "source": pg["source"], "files": pg.get("files", {}), "bps0": bps0, "steps": steps, "kind": kind,
-                     "linesDefault": case["family"] == "linesdefault"})
+                     "linesDefault": case["family"] == "linesdefault", "bpColumn": 5 if case["family"] == "column" else None})
         meta[i] = {"prog": pg["prog"], "lines": pg["lines"], "fuel": 4000 if kind == "fast" else 400, "name": pg["name"], "case": case, "source": pg["source"]}
     for i in range(1, nsess + 1):
         add(i, picks[(i - 1) % len(picks)] if picks else rnd.choice(scripts), rnd.choice(programs(rnd)), "slow", True)
@@ -351,6 +351,10 @@ def main(tier):
         for _ in range(3):
             i += 1
             add(i, case, probe_program(rnd), "probe", True, late=True)
+    for case in fam("column"):
+        # "    dex": the mnemonic starts in column 5 (1-based, the session announces columnsStartAt1)
+        i += 1
+        add(i, case, plain("loopsub", [I("ldx", 3), I("jsr", "sub", "loop"), I("dex"), I("bne", "loop"), I("brk"), I("iny", 0, "sub"), I("rts")], "dex", "iny"), "slow", True)
     for case in fam("stepend"):
         for pg in end_programs(rnd):
             i += 1
